@@ -34,6 +34,24 @@ def compare(ck, histories, env=None, fuel=400000):
     return [(engine_render(e), m) for e, m in zip(eng, mod)]
 
 
+def native_abort_on_error(case, params):
+    """Known-finding class (C07-K7 / DESIGN F21): with the JIT on, an ERROR raised below a natively compiled
+    frame cannot unwind and aborts the host (rc -6); the same program with STEEL_JIT=false produces exactly
+    the reference outcome, which is an error."""
+    eng = case.get("engine", "")
+    ref = case.get("reference") or case.get("core_semantics") or ""
+    return ("CRASH" in eng and "-6" in eng and "ERR" in ref and case.get("engine_jit_off_agrees") is True)
+
+
+def jit_off_agrees(ck, forms, reference, core=False):
+    eng = ck.eval_cases([[lang.unit_to_steel(forms)]], fresh=True, env={"STEEL_JIT": "false"}, timeout_per_batch=90)
+    if core:
+        r = eng[0][0] if eng[0] else {}
+        es = ("ERR " + r["err"]) if "err" in r else ("OK " + ([v for v in r.get("ok", []) if v != "#<void>"] or ["#<void>"])[-1]) if "ok" in r else "CRASH"
+        return es == reference
+    return engine_render(eng[0]) == reference
+
+
 def shrink_case(ck, prog, env=None):
     """Minimise a disagreeing program (the disagreement must persist; out-of-fuel never counts)."""
     def fails(cands):
@@ -49,11 +67,159 @@ def shrink_case(ck, prog, env=None):
         return prog
 
 
+# ----------------------------------------------------------------------------- core fragment, three-way
+class CoreGen:
+    """Programs inside the fragment of coq/lib/Core.v: integer/boolean constants, variables, fixed-arity
+    lambdas (first class), application, if, let, begin, integer primitives; defines first, one main."""
+
+    def __init__(self, rng):
+        self.r = rng
+        self.n = 0
+        self.funcs = {}     # name -> arity (int -> int functions)
+
+    def fresh(self, b):
+        self.n += 1
+        return "%s%d" % (b, self.n)
+
+    def e_int(self, d, env):
+        r = self.r
+        ints = [x for x, t in env.items() if t == "int"]
+        if d <= 0 or r.random() < 0.15:
+            return lang.V(r.choice(ints)) if ints and r.random() < 0.7 else lang.I(r.choice([0, 1, 2, 3, 5, -1, 7, 10]))
+        k = r.random()
+        if k < 0.3:
+            return lang.A(r.choice(["+", "-", "*"]), self.e_int(d - 1, env), self.e_int(d - 1, env))
+        if k < 0.42:
+            return ("if", self.e_bool(d - 1, env), self.e_int(d - 1, env), self.e_int(d - 1, env))
+        if k < 0.54:
+            x = self.fresh("v")
+            env2 = dict(env)
+            env2[x] = "int"
+            return ("let", [(x, self.e_int(d - 1, env))], [self.e_int(d - 1, env2)])
+        if k < 0.66 and self.funcs:
+            f = r.choice(list(self.funcs))
+            return lang.A(f, *[self.e_int(d - 1, env) for _ in range(self.funcs[f])])
+        if k < 0.76:
+            # immediately applied / let-bound lambda capturing locals
+            x = self.fresh("p")
+            env2 = dict(env)
+            env2[x] = "int"
+            lam = ("lam", [x], None, [self.e_int(d - 1, env2)])
+            if r.random() < 0.5:
+                return ("app", lam, [self.e_int(d - 1, env)])
+            f = self.fresh("h")
+            return ("let", [(f, lam)], [lang.A("+", lang.A(f, self.e_int(d - 2, env)), lang.A(f, lang.I(1)))])
+        if k < 0.84:
+            # higher-order: pass a lambda to a lambda
+            g, x = self.fresh("g"), self.fresh("x")
+            env2 = dict(env)
+            env2[x] = "int"
+            return ("app", ("lam", [g], None, [lang.A(g, lang.A(g, self.e_int(d - 2, env)))]),
+                    [("lam", [x], None, [self.e_int(d - 2, env2)])])
+        if k < 0.9:
+            return ("begin", [self.e_int(d - 1, env), self.e_int(d - 1, env)])
+        if k < 0.94:
+            # run-time errors: type, arity (through a variable), application of a non-procedure
+            kind = r.choice(["type", "arity", "notproc"])
+            if kind == "type":
+                return lang.A("+", self.e_int(d - 1, env), ("bool", True))
+            if kind == "arity":
+                f = self.fresh("af")
+                return ("let", [(f, ("lam", ["x"], None, [lang.V("x")]))], [lang.A(f)])
+            return ("app", self.e_int(d - 1, env), [lang.I(1)])
+        return self.e_int(d - 1, env)
+
+    def e_bool(self, d, env):
+        r = self.r
+        k = r.random()
+        if d <= 0 or k < 0.15:
+            return ("bool", r.random() < 0.5)
+        if k < 0.7:
+            return lang.A(r.choice(["<", "<=", ">", ">=", "="]), self.e_int(d - 1, env), self.e_int(d - 1, env))
+        if k < 0.85:
+            return lang.A("not", self.e_bool(d - 1, env))
+        return lang.A("zero?", self.e_int(d - 1, env))
+
+    def program(self):
+        r = self.r
+        self.funcs = {}
+        forms = []
+        for _ in range(r.randint(0, 4)):
+            f = self.fresh("f")
+            ar = r.randint(1, 3)
+            ps = [self.fresh("a") for _ in range(ar)]
+            env = {p_: "int" for p_ in ps}
+            kind = r.random()
+            if kind < 0.4:
+                # recursion over the first parameter: tail or non-tail
+                rec = lang.A(f, lang.A("-", lang.V(ps[0]), lang.I(1)), *[self.e_int(1, env) for _ in ps[1:]])
+                step = rec if r.random() < 0.5 else lang.A("+", self.e_int(1, env), rec)
+                body = ("if", lang.A("<=", lang.V(ps[0]), lang.I(0)), self.e_int(2, env),
+                        ("if", lang.A(">", lang.V(ps[0]), lang.I(40)), lang.I(0), step))
+                self.funcs[f] = ar
+            else:
+                body = self.e_int(r.choice([2, 3]), env)
+                self.funcs[f] = ar
+            forms.append(("define", f, ("lam", ps, None, [body])))
+        forms.append(self.e_int(r.choice([2, 3, 4]), {}))
+        return forms
+
+
+CORE_HEADER = ("From SV Require Import lib.Lang lib.Core lib.Bytecode.\nFrom Coq Require Import ZArith List String Ascii.\n"
+               "Import ListNotations.\nOpen Scope string_scope.\n")
+
+
+def core_model_expr(forms, fuel=20000):
+    unit = lang.cq_body(forms)
+    return ('match Core.split_unit %s with '
+            '| Some (ds, [m]) => (Core.render_result (Core.run_program %d ds m) ++ " / " ++ '
+            'Bytecode.render_run (Bytecode.vm_program (N.to_nat 100000%%N) true true %d ds m))%%string '
+            '| _ => "OUTSIDE"%%string end' % (unit, fuel, fuel * 40))
+
+
+def three_way(ck, n):
+    """Engine vs big-step core semantics vs model compiler+VM (the two ends of the simulation theorem)."""
+    g = CoreGen(ck.rng)
+    progs = [g.program() for _ in range(n)]
+    eng = ck.eval_cases([[lang.unit_to_steel(p)] for p in progs], fresh=True, batch=16, timeout_per_batch=90)
+    mod = ck.coq_eval(CORE_HEADER, [core_model_expr(p) for p in progs], shard=25)
+    agree = 0
+    for p, e, m in zip(progs, eng, mod):
+        r = e[0] if e else {}
+        if "ok" in r:
+            vals = [v for v in r["ok"] if v != "#<void>"]
+            es = "OK " + (vals[-1] if vals else "#<void>")
+        elif "err" in r:
+            es = "ERR " + r["err"]
+        else:
+            es = "CRASH " + json.dumps(r)[:80]
+        ck.cov["evaluations"] += 1
+        if "FUEL" in m or m == "OUTSIDE":
+            ck.cov["core_skipped"] = ck.cov.get("core_skipped", 0) + 1
+            continue
+        core, _, vm = m.partition(" / ")
+        case = {"program": lang.unit_to_steel(p), "engine": es, "core_semantics": core, "model_vm": vm}
+        if core != vm:
+            # the simulation theorem says this cannot happen: the executable definitions disagree
+            ck.violation("model compiler/VM and core semantics disagree (contradicts C01_program_render)", {"case": case},
+                         no_input=True, tag="sim")
+        elif es != core:
+            if "CRASH" in es:
+                case["engine_jit_off_agrees"] = jit_off_agrees(ck, p, core, core=True)
+            ck.failing_input("engine and core semantics differ on a core-fragment program", case, tag="core")
+        else:
+            agree += 1
+    ck.cov["core_three_way_agree"] = agree
+    if progs:
+        ck.sample({"core_program": lang.unit_to_steel(progs[0]), "model": mod[0]})
+
+
 def run(ck):
     ck.cov["trusted_base"] = [
         "Coq 8.16.1 kernel, coqc; vm_compute for model evaluation",
         "reference semantics coq/lib/Lang.v (hand written: the 'direct reading' oracle)",
         "correspondence harness (evalsrv), renderers checks/lang.py (AST -> Steel text, AST -> Coq term)",
+        "coq/lib/Core.v (big-step core semantics) and coq/lib/Bytecode.v (model compiler + VM): hand-written mirror of code_gen.rs / vm.rs for the core fragment",
     ]
     proved = ck.proof_stage(["c01", "lib"], ["c01/Reference_C01"], "c01/Pins_C01ref.v")
     import os
@@ -77,6 +243,10 @@ def run(ck):
         if ck.cov["evaluations"] % 40 == 1:
             ck.sample(case)
         if e != m:
+            if "CRASH" in e:
+                case["engine_jit_off_agrees"] = jit_off_agrees(ck, p, m)
+                ck.failing_input("engine crashed where the reference semantics gives %s" % m[:60], case, tag="sem")
+                continue
             small = shrink_case(ck, p)
             (e2, m2), = compare(ck, [[small]])
             case = {"program": lang.unit_to_steel(small), "engine": e2, "reference": m2, "original_program": src}
@@ -84,5 +254,7 @@ def run(ck):
     ck.cov["distinct_nontrivial"] = len(nontrivial)
     ck.cov["rule"] = "type-directed random programs (checks/lang.py Gen); distinct = distinct reference outcomes (values+output+error class)"
     ck.cov["construct_histogram"] = g.stats
+    if os.path.exists(os.path.join(common.COQ, "lib", "Bytecode.v")):
+        three_way(ck, 150 if ck.tier == "quick" else 4000)
     if not proved and not ck.violations:
         ck.unproved()
